@@ -240,10 +240,13 @@ static bool atomic_cas_strong(runtime_state_t *p, runtime_state_t *expected, run
   if (p == &g_v_state) vx_seen(*p);
   return false;
 }
-/* compare_exchange_weak: as the strong form, and it may fail spuriously (then *expected is rewritten with the value it compared equal to) */
+/* compare_exchange_weak: as compare_exchange_strong, but may fail spuriously (expected is then reloaded) */
 static bool atomic_cas_weak(runtime_state_t *p, runtime_state_t *expected, runtime_state_t desired)
 {
-  if (nondet_bool()) { interfere(p); bool same = (*p == *expected); *expected = *p; if (p == &g_v_state) vx_seen(*p); if (same) return false; return false; }
-  return atomic_cas_strong(p, expected, desired);
+  if (nondet_bool()) return atomic_cas_strong(p, expected, desired);
+  interfere(p);
+  *expected = *p;
+  if (p == &g_v_state) vx_seen(*p);
+  return false;
 }
 #endif
